@@ -69,8 +69,13 @@ VS_CFGS = {
         V("mix-vvv", ["VARCHAR"], 3, ["l1", "l150"], 3, 1, 3, maxbad=0),
         # a fixed-width assignment (SET c = 1) that only overflows the row in which that column was NULL and the row was full
         V("mix-null-grow", ["INT", "VARCHAR"], 2, ["l1", "f400"], 3, 1, 3, null=True, maxbad=0, intcls=("1",)),
+        # a refused row as the SECOND row of a two-row INSERT behind a row the table accepts (ValueStore!PutTwo): wrong type, INT
+        # out of range, a row one byte too long next to INT / BIGINT / BOOLEAN columns and NULLs - nothing of the statement is stored
+        dict(V("guarded-put", ["VARCHAR", "BIGINT", "INT", "BOOLEAN"], 2, ["l1", "f400", "f401"], 2, 1, 1, emit="all", wrong=True, null=True), WithGuard=True),
     ],
     "thorough": [
+        dict(V("guarded-put", ["VARCHAR", "BIGINT", "INT", "BOOLEAN"], 2, ["l1", "f399", "f400", "f401"], 2, 2, 1, emit="all", wrong=True, null=True), WithGuard=True),
+        dict(V("guarded-put-3", ["VARCHAR", "BIGINT", "INT"], 3, ["l1", "f400", "f401"], 2, 0, 0, emit="all", wrong=False, null=True), WithGuard=True),
         V("mix-vv", ["VARCHAR"], 2, ["l1", "l150", "l300", "f399", "f400", "f401"], 3, 2, 2),
         V("mix-vv-life", ["VARCHAR"], 2, ["l1", "l150", "l300", "f400"], 3, 4, 3),
         V("mix-viv", ["VARCHAR", "INT"], 3, ["l1", "l300", "f400", "f401"], 3, 2, 3),
